@@ -32,8 +32,15 @@ CONSTANTS SafeStore,        \* TRUE: a pre-populated *[][]string is replaced wha
           ParseErrorWins,   \* TRUE: a malformed input is reported with the parser's error by every kind (normative)
                             \* FALSE: mutated / racy model, an io.WriterTo source that still has text to write
                             \*        reports its "closed pipe" error instead (D54)
-          SharedSkipCounter \* FALSE: every call skips the configured number of lines (the code: options by value)
+          SharedSkipCounter,\* FALSE: every call skips the configured number of lines (the code: options by value)
                             \* TRUE: mutated model, the skip loop counts down the codec's own counter
+          FreshStore,       \* TRUE: every Consume into a *[][]string stores a freshly made slice (the code)
+                            \* FALSE: mutated model, a destination with enough capacity is resliced in place
+          RewindsSeekable,  \* FALSE: a seekable source is read from where the caller left it (the code)
+                            \* TRUE: mutated model, the payload is rewound to offset 0 first
+          FlagsReset        \* TRUE: LazyQuotes / TrimLeadingSpace / ReuseRecord of a caller-supplied *csv.Reader are set
+                            \*       to the option values, on or off (the code)
+                            \* FALSE: mutated model, flags are only switched on: a stale flag survives
 
 Drop(s, n) == IF n >= Len(s) THEN <<>> ELSE SubSeq(s, n + 1, Len(s))
 Min(a, b) == IF a < b THEN a ELSE b
@@ -85,15 +92,20 @@ StoreRecords(preLen, recs) ==
 DstKinds == {"csvwriter", "customwriter", "writer", "readerfrom", "binunm", "precords", "pbytes", "pstring",
              "nilprecords", "nilpbytes", "nil", "value", "pint"}
 DstSupported == {"csvwriter", "customwriter", "writer", "readerfrom", "binunm", "precords", "pbytes", "pstring"}
-SrcKinds == {"csvreader", "customreader", "reader", "readcloser", "writerto", "binm", "records", "bytes", "string",
+\* "seekbytes" / "seekstrings": a *bytes.Reader / *strings.Reader the caller has read a preamble from (offset > 0)
+SrcKinds == {"csvreader", "customreader", "reader", "readcloser", "seekbytes", "seekstrings", "writerto", "binm", "records", "bytes", "string",
              "precords", "pbytes", "pstring", "nilprecords", "nilpstring", "nil", "int"}
-SrcSupported == {"csvreader", "customreader", "reader", "readcloser", "writerto", "binm", "records", "bytes", "string",
+SrcSupported == {"csvreader", "customreader", "reader", "readcloser", "seekbytes", "seekstrings", "writerto", "binm", "records", "bytes", "string",
                  "precords", "pbytes", "pstring"}
 StreamingDst == {"csvwriter", "customwriter", "writer"}           \* pipeCSV straight into the destination
-StreamingSrc == {"csvreader", "customreader", "reader", "readcloser", "writerto", "records", "precords"}
+StreamingSrc == {"csvreader", "customreader", "reader", "readcloser", "seekbytes", "seekstrings", "writerto", "records", "precords"}
 
 (* c.tail (optional): the malformed input goes on for more than the read buffers after the bad record *)
 HasTail(c) == IF "tail" \in DOMAIN c THEN c.tail ELSE FALSE
+
+Stale(c) == IF "stale" \in DOMAIN c THEN c.stale ELSE FALSE
+Whole(c) == IF "whole" \in DOMAIN c THEN c.whole ELSE [table |-> c.table, bad |-> c.bad]
+SameVar(c) == IF "samevar" \in DOMAIN c THEN c.samevar ELSE FALSE
 
 Out(err, delivered, alias, panic) == [err |-> err, delivered |-> delivered, alias |-> alias, panic |-> panic]
 
@@ -118,8 +130,16 @@ Consume(c) ==
 
 Produce(c) ==
   CASE c.kind = "nil" -> Out("other", <<>>, FALSE, FALSE)
-    [] c.kind \in {"csvreader", "customreader", "reader", "readcloser"} ->
+    [] c.kind \in {"customreader", "reader", "readcloser"} ->
          LET r == PipeCSV(c.table, c.bad, c.skip) IN Out(r.err, r.recs, FALSE, FALSE)
+    [] c.kind = "csvreader" ->            \* applyToReader on the caller's reader: c.stale = it carries a flag the options do not
+         LET t == IF Stale(c) /\ ~FlagsReset THEN c.alt ELSE [table |-> c.table, bad |-> c.bad]
+             r == PipeCSV(t.table, t.bad, c.skip)
+         IN Out(r.err, r.recs, FALSE, FALSE)
+    [] c.kind \in {"seekbytes", "seekstrings"} ->   \* io.Reader at the caller's offset; c.whole = the parse from offset 0
+         LET t == IF RewindsSeekable THEN Whole(c) ELSE [table |-> c.table, bad |-> c.bad]
+             r == PipeCSV(t.table, t.bad, c.skip)
+         IN Out(r.err, r.recs, FALSE, FALSE)
     [] c.kind = "writerto" ->             \* WriteTo feeds a pipe in a goroutine; the reading side's error is the result
          LET r == PipeCSV(c.table, c.bad, c.skip) IN
          Out(IF r.err = "parse" /\ HasTail(c) /\ ~ParseErrorWins THEN "other" ELSE r.err, r.recs, FALSE, FALSE)
@@ -190,14 +210,37 @@ CallCfg(c, i) == [c EXCEPT !.table = c.calls[i].table, !.bad = c.calls[i].bad]
 
 LeftAfter(table, skip) == IF skip > Len(table) THEN skip - Len(table) ELSE 0
 
-RECURSIVE RunCalls(_, _, _)
-RunCalls(c, i, skipNow) ==
+(* c.samevar: every call stores into the SAME *[][]string variable while the *)
+(* caller keeps the table each earlier call delivered (a slice header).    *)
+(*   vs = [held, arr, cap, next]: held[j] = [arr, tab] what the header kept *)
+(*   after call j shows now; arr/cap: the variable's current array         *)
+OverlayTab(old, new) == [k \in 1..Len(old) |-> IF k <= Len(new) THEN new[k] ELSE old[k]]
+VsInit == [held |-> <<>>, arr |-> 0, cap |-> 0, next |-> 1]
+StoreInVar(vs, recs) ==
+  IF ~FreshStore /\ vs.cap >= Len(recs) /\ vs.arr # 0
+  THEN [vs EXCEPT !.held = Append([j \in 1..Len(vs.held) |->
+                                      IF vs.held[j].arr = vs.arr THEN [vs.held[j] EXCEPT !.tab = OverlayTab(@, recs)] ELSE vs.held[j]],
+                                   [arr |-> vs.arr, tab |-> recs])]
+  ELSE [held |-> Append(vs.held, [arr |-> vs.next, tab |-> recs]), arr |-> vs.next, cap |-> Len(recs), next |-> vs.next + 1]
+
+RECURSIVE RunCalls(_, _, _, _)
+RunCalls(c, i, skipNow, vs) ==
   IF i > Len(c.calls) THEN <<>>
   ELSE LET ci == [CallCfg(c, i) EXCEPT !.skip = skipNow]
            nx == IF SharedSkipCounter /\ Supported(c) THEN LeftAfter(ci.table, skipNow) ELSE c.skip
-       IN <<Model(ci)>> \o RunCalls(c, i + 1, nx)
+           o  == Model(ci)
+           stores == SameVar(c) /\ o.err = "none" /\ ~o.panic
+           vs2 == IF stores THEN StoreInVar(vs, o.delivered) ELSE vs
+           ret == [j \in 1..Len(vs.held) |-> vs2.held[j].tab]        \* what the EARLIER headers show after this call
+       IN <<[err |-> o.err, delivered |-> o.delivered, alias |-> o.alias, panic |-> o.panic, retained |-> ret]>>
+          \o RunCalls(c, i + 1, nx, vs2)
 
-ReuseModel(c) == RunCalls(c, 1, c.skip)
+ReuseModel(c) == RunCalls(c, 1, c.skip, VsInit)
 
-ReuseAllowed(c, outs) == \A i \in 1..Len(c.calls) : Allowed(CallCfg(c, i), outs[i])
+(* what the caller kept from call j is still what call j delivered *)
+RetainedOK(c, i, retained) ==
+  SameVar(c) => retained = [j \in 1..(i - 1) |-> Expected(CallCfg(c, j))]
+
+ReuseAllowed(c, outs) ==
+  \A i \in 1..Len(c.calls) : Allowed(CallCfg(c, i), outs[i]) /\ RetainedOK(c, i, outs[i].retained)
 =============================================================================
